@@ -163,9 +163,83 @@ fn passes_table(ctx: &mut Ctx) {
     ctx.exhaustive_parts.push("Outcome::passes / is_force over all 22 outcome values x 3 filters".into());
 }
 
+/// The public repetition table on its own: random pushes and pops of boards against a multiset model.
+fn repeat_table_direct(ctx: &mut Ctx) {
+    use owlchess::chain::{HashRepeat, Repeat};
+    use std::collections::HashMap;
+    let fixed = gen::fixed_positions();
+    let rounds = ctx.budget(2_000, 30_000);
+    for _ in 0..rounds {
+        // a small pool of positions, some differing only in counters (same key) or only in one feature
+        let mut pool: Vec<MPos> = Vec::new();
+        let base = ctx.rng.pick(&fixed).normalized();
+        if !base.is_valid() {
+            continue;
+        }
+        pool.push(base.clone());
+        let mut c = base.clone();
+        c.halfmove = c.halfmove.wrapping_add(5);
+        c.fullmove = c.fullmove.wrapping_add(9);
+        pool.push(c);
+        let mut cur = base.clone();
+        for _ in 0..4 {
+            let lg = cur.legal_moves();
+            if lg.is_empty() {
+                break;
+            }
+            cur = cur.apply(ctx.rng.pick(&lg));
+            pool.push(cur.clone());
+        }
+        let boards: Vec<(owlchess::Board, Vec<u8>)> = pool.iter().filter_map(|p| crate::conv::to_board(p).ok().map(|b| (b, p.rep_key()))).collect();
+        if boards.is_empty() {
+            continue;
+        }
+        let case = format!("repeat:{}", mfen::to_xfen(&base));
+        ctx.begin_case(&case);
+        let r = crate::ctx::catch(|| {
+            let mut t = HashRepeat::default();
+            let mut model: HashMap<Vec<u8>, usize> = HashMap::new();
+            let mut stack: Vec<usize> = Vec::new();
+            let mut bad: Option<String> = None;
+            for step in 0..60 {
+                if !stack.is_empty() && ctx.rng.chance(2, 5) {
+                    let i = stack.pop().unwrap();
+                    t.pop(&boards[i].0);
+                    *model.get_mut(&boards[i].1).unwrap() -= 1;
+                } else {
+                    let i = ctx.rng.below(boards.len());
+                    t.push(&boards[i].0);
+                    *model.entry(boards[i].1.clone()).or_insert(0) += 1;
+                    stack.push(i);
+                }
+                for (b, k) in &boards {
+                    let want = *model.get(k).unwrap_or(&0);
+                    if t.count(b) != want {
+                        bad = Some(format!("step {}: count {} expected {} for {}", step, t.count(b), want, b.as_fen()));
+                    }
+                }
+                if bad.is_some() {
+                    break;
+                }
+            }
+            bad
+        });
+        ctx.eval(60);
+        match r {
+            Ok(None) => {}
+            Ok(Some(d)) => ctx.violation("repetition_table_count", &case, &d),
+            Err(msg) => ctx.violation(&format!("panic:repeat_table:{}", crate::ctx::panic_site(&msg)), &case, &msg),
+        }
+    }
+    ctx.feature_n("direct_repeat_table_rounds", rounds);
+}
+
 pub fn run(ctx: &mut Ctx) {
     if ctx.prop == "C14" && ctx.shard == 0 {
         passes_table(ctx);
+    }
+    if ctx.prop == "C14" && !ctx.light() {
+        repeat_table_direct(ctx);
     }
     let n = match ctx.prop.as_str() {
         "C13" => ctx.budget(100_000, 1_200_000),
@@ -193,6 +267,10 @@ pub fn run(ctx: &mut Ctx) {
 pub fn replay(ctx: &mut Ctx, case: &str) -> bool {
     if case.starts_with("outcome:") {
         passes_table(ctx);
+        return true;
+    }
+    if case.starts_with("repeat:") {
+        repeat_table_direct(ctx);
         return true;
     }
     let mut fen = None;
